@@ -239,7 +239,7 @@ def main():
             "name": "pvverif",
             "path": "pvverif/",
             "serves_properties": sorted(CHECKS),
-            "kind_free_text": "Hypothesis 6.168 property-based testing (given / stateful machines / target), sharded over 16 "
+            "kind_free_text": "Hypothesis 6.168 property-based testing (given / rule-based stateful machines), sharded over 16 "
                               "processes, explicit oracles per property, shrinking to JSON replay files",
         }],
         "checks": checks,
